@@ -37,3 +37,32 @@ pub fn with_peer<T>(ty: &Ty, cfg: &RCfg, cx: &Ctx, f: impl FnOnce() -> T) -> T {
     let _r = Reset;
     f()
 }
+
+thread_local! {
+    static RCX: Cell<Option<*const Ctx>> = Cell::new(None);
+}
+
+/// Same idea for *real* types (the derived family of `realfam.rs`): `DynReal<T>` deserializes a `T`
+/// through the seam interposers of the context installed by `with_cx`.
+pub struct DynReal<T>(pub T);
+
+impl<'de, T: Deserialize<'de>> Deserialize<'de> for DynReal<T> {
+    fn deserialize<D: Deserializer<'de>>(d: D) -> Result<Self, D::Error> {
+        let cx = RCX.with(|p| p.get()).expect("HARNESS: DynReal used outside with_cx");
+        // SAFETY: installed by `with_cx` for the duration of the call, cleared before it returns
+        let cx = unsafe { &*cx };
+        PSeed { s: std::marker::PhantomData::<T>, cx }.deserialize(d).map(DynReal)
+    }
+}
+
+pub fn with_cx<R>(cx: &Ctx, f: impl FnOnce() -> R) -> R {
+    struct Reset;
+    impl Drop for Reset {
+        fn drop(&mut self) {
+            RCX.with(|p| p.set(None));
+        }
+    }
+    RCX.with(|p| p.set(Some(cx as *const Ctx)));
+    let _r = Reset;
+    f()
+}
